@@ -59,6 +59,7 @@ pub mod ext_time {
             None => nanos(*i) + dur_ns(d) > instant_max(),
         };
     pub assume_specification [Instant::now] () -> (r: Instant);
+    pub assume_specification [Instant::elapsed] (i: &Instant) -> (r: Duration);
 
     // ---- BinaryHeap
     pub uninterp spec fn heap_view<T, A: std::alloc::Allocator>(h: &BinaryHeap<T, A>) -> Multiset<T>;
@@ -112,5 +113,25 @@ pub mod ext_dur {
     pub broadcast proof fn axiom_duration_obeys()
         ensures #[trigger] <Duration as OrdSpec>::obeys_cmp_spec(),
     {}
-    pub broadcast group axiom_duration_cmp { axiom_duration_ord, axiom_duration_obeys }
+    /// ASSUMED: `a - b` on Durations is defined (does not panic) whenever a >= b
+    #[verifier::external_body]
+    pub broadcast proof fn axiom_duration_sub(a: Duration, b: Duration)
+        ensures dur_ns(a) >= dur_ns(b) ==> #[trigger] vstd::std_specs::ops::SubSpec::sub_req(a, b),
+    {}
+    #[verifier::external_body]
+    pub broadcast proof fn axiom_duration_partial_ord(a: Duration, b: Duration)
+        ensures <Duration as PartialOrdSpec>::obeys_partial_cmp_spec(), #[trigger] a.partial_cmp_spec(&b) == Some(int_cmp(dur_ns(a), dur_ns(b))),
+    {}
+    pub broadcast group axiom_duration_cmp { axiom_duration_ord, axiom_duration_obeys, axiom_duration_sub, axiom_duration_partial_ord }
+    /// stand-in for the associated const `Duration::ZERO` (rule R12: Verus has no way to give an external
+    /// associated const a specification). ASSUMED: it is the zero duration.
+    #[verifier::external_body]
+    pub fn duration_zero() -> (r: Duration)
+        ensures dur_ns(r) == 0,
+    { Duration::ZERO }
+    /// ASSUMED: a Duration is determined by its nanosecond view
+    #[verifier::external_body]
+    pub broadcast proof fn axiom_duration_ext(a: Duration, b: Duration)
+        ensures #[trigger] dur_ns(a) == #[trigger] dur_ns(b) ==> a == b,
+    {}
 }
